@@ -12,7 +12,9 @@ RULE = ("harness c05, three streams.  (1) HAL convolution 5001..5004: cnv_prepar
         "two garbage fills (flag).  (2) keyless core level 5101..5107: glwe_tensor_apply/_add_assign/_square, glwe_mul_plain(_assign), "
         "glwe_mul_const(_assign) on ciphertext columns filled with balanced digits (random / extreme / alternating / sparse), rank 1..3, "
         "a_k != b_k incl. k mod base2k != 0 (mask path), result precision below/at/above the full product, cross-radix results, "
-        "cnv_offset 0..(a+b+2)*base2k; output limbs must equal the model bit for bit and satisfy the phase identity for a synthetic secret. "
+        "cnv_offset 0..(a+b+1)*base2k-1; output limbs must equal the model bit for bit and satisfy the phase identity for a synthetic secret; "
+        "5108 glwe_tensor_relinearize on random tensor and tensor-key limbs (key dumped before preparation, dsize 1..3, dnum below/at/above the "
+        "tensor's digits, key radix equal to / different from the tensor's and the result's) reproduced bit for bit by the gadget model of C03. "
         "(3) real keys 5201..5203 (extra phase): encrypt, multiply, decrypt the tensor with (1, s, s(x)s), relinearise with tensor keys of "
         "dsize 1..3 and radix equal to / different from the tensor's, decrypt with s; exact phases recomputed by the oracle; explicit envelopes. "
         "distinct = distinct (op, params, inputs) lines")
@@ -22,11 +24,13 @@ ASSUMPTIONS = [
     "n >= 8 (the FFT64 convolution kernels process blocks of 8 coefficients; for n < 8 they compute nothing), sizes >= 1",
     "normalize_value_ok / nrm_no_overflow / nrm_shape (one unit of the result's last limb per big-normalisation) are named Section hypotheses of the "
     "general core-level theorems; they are discharged from C08's normalize_inter_value for the FFT64 family with equal radices "
-    "(C05_tensor_phase_fft64, C05_mul_plain_phase_fft64); for cross-radix results and the i128 accumulator of NTT120 they remain hypotheses",
-    "relinearisation is not modelled (keyswitch_phase, C03, is the hypothesis of the stated C05_relinearize_phase_full)",
+    "(C05_tensor_phase_fft64, C05_mul_plain_phase_fft64) and for the NTT120 family with equal radices from C08Wide (C05_tensor_phase_ntt120, ..); for cross-radix results they remain hypotheses",
+    "relinearisation: modelled bit for bit on C03's gadget product (Model/C05Relin.v); its phase theorems take C03's key-row hypothesis "
+    "key_rows_ok (`keyswitch_phase`) and, in C05_relinearize_phase, the per-column normalize_value_ok (discharged for FFT64 in C05_relinearize_phase_full); "
+    "theorems for tensor radix = key radix (the cross-radix pre-normalisation is correspondence-checked only)",
     "operations run with exactly their declared *_tmp_bytes of scratch (garbage-filled); cnv_offset <= (a.size + b.size + 1) * base2k - 1 "
     "(beyond, `a.size() + b.size() - cnv_offset_hi` underflows: debug builds panic)",
-    "relinearisation is judged by the oracle's envelope (gadget bound with B = 20 >= 6 sigma), not reproduced bit for bit",
+    "level 2: the relinearised ciphertext is reproduced bit for bit from the dumped tensor key AND judged by the oracle's envelope (gadget bound with B = 20 >= 6 sigma)",
 ]
 TRUSTED = ["secret key coefficients are obtained by replaying ScalarZnx::fill_ternary_prob on a copy with the same seed (GLWESecret has no public accessor)"]
 
@@ -45,7 +49,7 @@ def _l2_bits(record):
     drv = OCAML / "gen" / "c05" / "drv"
     code, rest = record.split("#", 1)
     base = {"5201": 5310, "5202": 5320, "5203": 5330}[code]
-    lines = "".join(f"{base + i}#{rest}\n" for i in range(7))
+    lines = "".join(f"{base + i}#{rest}\n" for i in range(8))
     tmp = Path("/verif/work/c05/l2_bits.txt")
     tmp.parent.mkdir(parents=True, exist_ok=True)
     tmp.write_text(lines)
@@ -63,7 +67,7 @@ def classify(record):
     (fft64.cnv_apply_dft.res_col_ignored 2ac1856, relinearize.res_radix_decides_conversion 5107ea7,
     gglwe_product.dsize_ge3.stale_limb c0a89d7), so every oracle failure is a violation.  `_l2_bits(record)` tells which
     sub-check of a level-2 record fails (0 keyless bit-exactness, 1 tensor/product phase, 2 decrypt of it, 3 relinearised phase,
-    4 decrypt of it, 5/6 scratch independence)."""
+    4 decrypt of it, 5/6 scratch independence, 7 relinearisation bit-exact on the dumped key)."""
     return None
 
 
